@@ -138,6 +138,31 @@ func instrumentFile(path string, order, points bool, pkg string) (int, []byte) {
 		})
 	}
 	if points {
+		// deterministic iteration for `for k, v := range X.RuleEntries` (clone order decides the
+		// sequence of yield points): for _, k := range verifhook.Keys(X.RuleEntries) { v := X.RuleEntries[k]; ... }
+		ast.Inspect(f, func(nd ast.Node) bool {
+			rs, ok := nd.(*ast.RangeStmt)
+			if !ok || rs.Tok != token.DEFINE {
+				return true
+			}
+			sel, ok := rs.X.(*ast.SelectorExpr)
+			if !ok || sel.Sel.Name != "RuleEntries" {
+				return true
+			}
+			k, ok1 := rs.Key.(*ast.Ident)
+			v, ok2 := rs.Value.(*ast.Ident)
+			if !ok1 || !ok2 || k.Name == "_" || v.Name == "_" {
+				return true
+			}
+			orig := rs.X
+			rs.X = &ast.CallExpr{Fun: &ast.SelectorExpr{X: ast.NewIdent("verifhook"), Sel: ast.NewIdent("Keys")}, Args: []ast.Expr{orig}}
+			rs.Value = ast.NewIdent(k.Name)
+			rs.Key = ast.NewIdent("_")
+			assign := &ast.AssignStmt{Lhs: []ast.Expr{ast.NewIdent(v.Name)}, Tok: token.DEFINE, Rhs: []ast.Expr{&ast.IndexExpr{X: orig, Index: ast.NewIdent(k.Name)}}}
+			rs.Body.List = append([]ast.Stmt{assign}, rs.Body.List...)
+			n++
+			return true
+		})
 		for _, d := range f.Decls {
 			fd, ok := d.(*ast.FuncDecl)
 			if !ok || fd.Body == nil {
